@@ -46,6 +46,7 @@ WByte(w, k) == CASE k = 0 -> w[1] \div 256 [] k = 1 -> w[1] % 256
                  [] k = 2 -> w[2] \div 256 [] k = 3 -> w[2] % 256
 
 (* byte strings <-> word sequences (big-endian); Len(b) multiple of 4 *)
-WordsOf(b) == [i \in 1..(Len(b) \div 4) |-> <<b[4*i-3] * 256 + b[4*i-2], b[4*i-1] * 256 + b[4*i]>>]
-BytesOf(ws) == [i \in 1..(4 * Len(ws)) |-> WByte(ws[(i + 3) \div 4], (i - 1) % 4)]
+(* normalised to concrete tuples (SubSeq): TLC function constructors are lazy and un-memoised *)
+WordsOf(b) == SubSeq([i \in 1..(Len(b) \div 4) |-> <<b[4*i-3] * 256 + b[4*i-2], b[4*i-1] * 256 + b[4*i]>>], 1, Len(b) \div 4)
+BytesOf(ws) == SubSeq([i \in 1..(4 * Len(ws)) |-> WByte(ws[(i + 3) \div 4], (i - 1) % 4)], 1, 4 * Len(ws))
 =============================================================================
